@@ -52,9 +52,10 @@ type Case struct {
 	Qk mon.Hex `json:"q_scalar,omitempty"` // Q = [q]G2
 	Pi int     `json:"pair_index,omitempty"`
 	// conc
-	SK2   mon.Hex `json:"sk2,omitempty"`
-	G     int     `json:"goroutines,omitempty"`
-	Round int     `json:"round,omitempty"`
+	SK2   mon.Hex   `json:"sk2,omitempty"`
+	SKs   []mon.Hex `json:"sks,omitempty"`
+	G     int       `json:"goroutines,omitempty"`
+	Round int       `json:"round,omitempty"`
 }
 
 var (
@@ -1102,6 +1103,8 @@ func replay(r *mon.Run, path string) {
 		}
 	case "recv":
 		recvEval(r, r, c, nil)
+	case "inputs":
+		inputsEval(r, r, c)
 	case "conc":
 		// an interleaving: repeat the recorded round until it shows again (bounded)
 		for rep := 0; rep < 300 && len(agg.m) == 0; rep++ {
@@ -1162,6 +1165,7 @@ func main() {
 	mon.Parallel(nLaw, workers, func(i int) { evalPairing(r, pairCase(r, i)) })
 
 	recvPhase(r, workers)
+	inputsPhase(r, workers)
 	concPhase(r, false)
 	concRaceChild(r)
 	negLaw(r, r.Pick(60, 2000))
@@ -1175,10 +1179,11 @@ func main() {
 	r.Sample(Case{Fam: "rt", Kind: "scalar", V: scalars[25].Bytes()})
 
 	evals := r.Get("verify_cases") + r.Get("roundtrip_checks") + r.Get("pairing_law_checks") + r.Get("gt_equality_checks") + r.Get("parser_diff_checks") + r.Get("g1_op_crosschecks") +
-		r.Get("concurrent_verifications") + r.Get("concurrent_pairings") + r.Get("concurrent_post_checks") + r.Get("receiver_state_checks")
+		r.Get("concurrent_verifications") + r.Get("concurrent_pairings") + r.Get("concurrent_post_checks") + r.Get("receiver_state_checks") +
+		r.Get("inputs_unmodified_checks") + r.Get("inputs_result_checks")
 	r.Finish(mon.Coverage{
 		Evaluations:        evals,
-		DistinctNontrivial: int64(r.DistinctCount("nontrivial") + r.DistinctCount("pairing") + r.DistinctCount("concurrent") + r.DistinctCount("receiver_entry_state")),
+		DistinctNontrivial: int64(r.DistinctCount("nontrivial") + r.DistinctCount("pairing") + r.DistinctCount("concurrent") + r.DistinctCount("receiver_entry_state") + r.DistinctCount("inputs_op_position")),
 		Rule: "per seeded (secret key, message) pair (edge scalars 1,2,3,r-1,r-2,2^k and leading-zero scalars included; messages empty/1/32/1..200 bytes): " +
 			"the honest signature and ~110 derived byte strings (negation, doubling, small multiples, sums with other valid signatures, signatures for other messages/keys, identity and its non-reduced forms, generator, random curve point, off-curve x+1/y+1, coordinates +P, 2P-y, swapped, over-long 65/96/128, junk-prefixed, every truncation 0..63) presented through DeserializeSign and Signature.SetHexString to the real VerifySig; " +
 			"the honest public key and ~165 derived strings (negation, doubling, other key, sums, identity, 1-byte and empty, off-curve, each coordinate +P, over-long 129/160/256, truncations 1..127, twist points outside the order-r subgroup incl. order-13 and order-7369 points and pk+such) through Pubkey.Deserialize and one of ByteToPublicKey/SetHexString/UnmarshalJSON; " +
@@ -1186,7 +1191,8 @@ func main() {
 			"Non-trivial = the reference (math/big) places the presented bytes on the curve/twist, so the pairing comparison and not the parser decides; distinct by (family, presented bytes, key, message). " +
 			"Plus parser differential against the reference, byte/hex/JSON round trips, and pairing laws (bilinear in both arguments, additive, e([r]P,Q)=1, e(P,Q)!=1, e^r=1, exactness of PairIsEuqal) on seeded scalars incl. 0,1,r-1,r,r+1,>=r. " +
 			"Concurrent phase: per round a fresh public key object still in Jacobian form (GeneratePubkey / AggregatePubkeys output, never serialised; a twin regenerated from the same secret serves the oracle) and one parsed signature object are shared by 16 goroutines released together, each running VerifySig on the honest and on a forged message; likewise shared Jacobian aP, bQ in Pair. Judged: every honest verification true, every forged false, racing Pair results equal e(P,Q)^(ab) of the twins, afterwards the shared objects verify sequentially and serialise to the twin's bytes. " +
-			"Receiver-state clause: every parse entry point (Signature.Deserialize/SetHexString, Pubkey.Deserialize/SetHexString/UnmarshalJSON, Seckey and ID byte/hex/JSON parsers, bn256 G1/G2.Unmarshal) applied to receivers holding a computed Jacobian value, the identity, another parsed value or the remains of a failed parse, for honest / other / identity / off-curve / non-reduced / over-long / truncated / empty inputs; judged: accepted-or-not, resulting bytes and verification / pairing verdicts equal those of a fresh receiver",
+			"Receiver-state clause: every parse entry point (Signature.Deserialize/SetHexString, Pubkey.Deserialize/SetHexString/UnmarshalJSON, Seckey and ID byte/hex/JSON parsers, bn256 G1/G2.Unmarshal) applied to receivers holding a computed Jacobian value, the identity, another parsed value or the remains of a failed parse, for honest / other / identity / off-curve / non-reduced / over-long / truncated / empty inputs; judged: accepted-or-not, resulting bytes and verification / pairing verdicts equal those of a fresh receiver. " +
+			"Inputs-unmodified clause: AggregatePubkeys (every position, inputs reused, duplicated element), AggregateSeckeys, ShareSeckey, RecoverGroupSignature, VerifySig, Sign, GeneratePubkey, NewIDFromPubkey, IsEqual and the value-receiver readers, bn256 Add/Neg/ScalarMult/Pair, with computed (Jacobian, never serialised) and parsed inputs; judged: every argument afterwards serialises to the bytes of a twin regenerated from the same secret, verifies its own honest signature, rejects another party's, and the operation's result is right",
 		Assumptions: []string{
 			"math/big reference arithmetic for y^2=x^3+3 over F_p and the twist y^2=x^3+3/(i+3) over F_p^2 is exact; its constants pass the BN-polynomial self check and every honest key/signature of the run lies on the reference curves",
 			"BLS uniqueness: for a fixed key and message exactly one group element verifies, so byte equality with Sign(sk,m).Serialize() is the exact acceptance oracle",
@@ -1194,6 +1200,6 @@ func main() {
 		},
 		MustObserve: []string{"honest_accepted", "nonhonest_rejected", "pairing_decided", "parser_decided", "roundtrip_checks", "pairing_law_checks",
 			"nondegeneracy_checks", "gt_equality_checks", "ref_honest_material_on_curve", "nonsubgroup_points_constructed", "parser_diff_checks", "g1_op_crosschecks",
-			"concurrent_verifications", "concurrent_pairings", "concurrent_post_checks", "receiver_state_checks"},
+			"concurrent_verifications", "concurrent_pairings", "concurrent_post_checks", "receiver_state_checks", "inputs_unmodified_checks", "inputs_result_checks"},
 	})
 }
